@@ -143,6 +143,27 @@ theorem kpCorner_eq_kpDirect {α : Type} (ham : QVec3 → α) (p dK v : QVec3) :
   unfold kpCorner kpDirect foldV fracV qadd
   simp only [fold1_frac1_add]
 
+theorem kpCornerCart_eq_kpDirectCart {α : Type} (ham : QVec3 → α) (B : Mat3) (p dK v : QVec3) :
+    kpCornerCart ham B p dK v = kpDirectCart ham B p dK v := by
+  unfold kpCornerCart kpDirectCart foldV fracV qadd
+  simp only [fold1_frac1_add]
+
+/-- `(k + s∘dK)·B = k·B + s·(diag(dK)·B)` : the Cartesian corner is the Cartesian k-point plus `Σ_i s_i dK_i b_i` -/
+theorem redToCart_corner (B : Mat3) (k s dK : QVec3) :
+    redToCart B (qadd k (hadamard s dK)) = qadd (redToCart B k) (vecMat s (dKcart dK B)) := by
+  simp only [redToCart, vecMat, qadd, smulQ, hadamard, dKcart]
+  refine Prod.ext ?_ (Prod.ext ?_ ?_) <;> simp only <;> ring
+
+/-- for a SYMMETRIC edge matrix the transposed contraction gives the same vector -/
+theorem matVec_eq_vecMat_of_symm (M : Mat3) (s : QVec3)
+    (h12 : M.1.2.1 = M.2.1.1) (h13 : M.1.2.2 = M.2.2.1) (h23 : M.2.1.2.2 = M.2.2.2.1) :
+    matVec M s = vecMat s M := by
+  simp only [matVec, vecMat, dotQ, qadd, smulQ]
+  refine Prod.ext ?_ (Prod.ext ?_ ?_) <;> simp only
+  · rw [h12, h13]; ring
+  · rw [← h12, h23]; ring
+  · rw [← h13, ← h23]; ring
+
 /-! ### phonon frequencies -/
 section phonon
 variable {K : Type} [Field K] [LinearOrder K] [IsStrictOrderedRing K]
